@@ -358,6 +358,8 @@ func runC12(c *Ctx) {
 	checkAtMethodsUseTheirOffset(c, "R17")
 	// R18 (shared with C13.R4): the count the sequential loops return is what moves the offset in Read and Write
 	checkSequentialLoops(c, "R18")
+	// R19: a chunk the server took is a chunk transferred — the STATUS that acknowledges a WRITE decodes to nil
+	checkStatusCaseNextToDataCase(c, "R19", true)
 	c.withRule("R13", func() {
 		c01TransferSitesOnly = true
 		defer func() { c01TransferSitesOnly = false }()
@@ -517,7 +519,7 @@ func runC13(c *Ctx) {
 	c.withRule("R10", func() { runC01R2(c) })
 	// R11: a STATUS answer to READ is a failure or EOF, never success (shared with C20.Z6): read as success it gives a
 	// short count — or, in the concurrent ReadAt, a full count over bytes that never arrived — with a nil error
-	c.withRule("R11", func() { checkStatusCaseNextToDataCase(c, "Z6") })
+	c.withRule("R11", func() { checkStatusCaseNextToDataCase(c, "Z6", false) })
 	// R12: the lowest failing offset is elected among offsets that did not wrap (shared with C12.R10)
 	c.withRule("R12", func() { checkChunkOffsetsCannotWrap(c, "R10") })
 	checkShortChunkEndsTransfer(c, "R13")
@@ -537,6 +539,8 @@ func runC13(c *Ctx) {
 	checkWriteChunkCountsOnlyAcknowledged(c, "R19")
 	// R20 (shared with C01.R20): a server that answers a failed read with short DATA makes the client report a short count without the error
 	checkReadReplyTruthTable(c, "R20")
+	// R21 (shared with C12.R19): an error is returned only when the server failed a chunk — SSH_FX_OK is no failure
+	checkStatusCaseNextToDataCase(c, "R21", true)
 
 	// R7: ReadFrom / ReadFromWithConcurrency leave the File offset at the end of the intact prefix
 	checkOffsetStores(c, "R7", map[string]bool{"(*File).ReadFrom": true, "(*File).readFromWithConcurrency": true})
